@@ -38,6 +38,9 @@ pub enum Op {
     GetVersion { k: u8 },
     GetPrefix { p: u8 },
     Reopen,
+    /// the process dies (no orderly close): the database files are copied as they are while the
+    /// store is still open, and the copy is opened; every write acknowledged before must be there
+    CrashReopen,
 }
 
 #[derive(Clone, Debug, Serialize, Deserialize, PartialEq)]
@@ -103,6 +106,7 @@ fn op_strat() -> impl Strategy<Value = Op> {
         1 => k_strat().prop_map(|k| Op::GetVersion { k }),
         1 => (0u8..PREFIXES.len() as u8).prop_map(|p| Op::GetPrefix { p }),
         1 => Just(Op::Reopen),
+        1 => Just(Op::CrashReopen),
     ]
 }
 
@@ -156,7 +160,7 @@ pub struct C16;
 
 impl C16 {
     fn run_local(&self, ops: &[Op], st: &mut CaseStats) -> Result<(), Violation> {
-        let dir = tmp_dir();
+        let mut dir = tmp_dir();
         let mem = MemoryKVVStore::new([7u8; 16]);
         let mut redb = Some(RedbKVVStore::new(dir.path()));
         let mut model: Model = BTreeMap::new();
@@ -315,6 +319,26 @@ impl C16 {
                     redb = Some(r);
                     reopens += 1;
                     shape.push((3, true));
+                }
+                Op::CrashReopen => {
+                    let before = dump(rd);
+                    let dir2 = tmp_dir();
+                    for e in std::fs::read_dir(dir.path()).expect("read_dir") {
+                        let e = e.expect("dir entry");
+                        if e.path().is_file() {
+                            std::fs::copy(e.path(), dir2.path().join(e.file_name())).expect("copy database file");
+                        }
+                    }
+                    let r = RedbKVVStore::new(dir2.path());
+                    let after = dump(&r);
+                    if before != after {
+                        return fail("redb.crash_reopen", i, format!("acknowledged writes are missing after an unclean stop: dump before {:?}, after reopening a copy of the files {:?}", before, after));
+                    }
+                    drop(redb.take());
+                    redb = Some(r);
+                    dir = dir2;
+                    reopens += 1;
+                    shape.push((4, true));
                 }
             }
             // after every step: full agreement and monotone versions
